@@ -346,6 +346,19 @@ struct Blk
     if(first) o << "NONE";
   }
 
+  // block sizes 4..7 (Tiny inverse: closed formulas up to 6x6, generic elimination from 7x7 on): unit filter only
+  static void run_lite(Cur& c, std::ostream& o)
+  {
+    HistHead h(c);
+    QV dval;
+    std::string ft = is_number(c.t[c.p]) ? std::string("unit") : c.str();
+    if(ft != "unit") { std::cerr << "\n>>> FATAL ERROR: harness: filter not instantiated for this block size\n"; std::abort(); }
+    NV fidx = c.idxlist();
+    BFilter filter(h.n);
+    for(auto i : fidx) { Tiny::Vector<Q, bs_> t(Q(5)); filter.add(Index(i), t); }
+    run_with(c, o, h, dval, filter);
+  }
+
   static void run(Cur& c, std::ostream& o)
   {
     HistHead h(c);
@@ -392,6 +405,10 @@ static void handle(const verif::Tokens& t, std::ostream& o)
     Index bs = c.idx();
     if(bs == 2) Blk<2>::run(c, o);
     else if(bs == 3) Blk<3>::run(c, o);
+    else if(bs == 4) Blk<4>::run_lite(c, o);
+    else if(bs == 5) Blk<5>::run_lite(c, o);
+    else if(bs == 6) Blk<6>::run_lite(c, o);
+    else if(bs == 7) Blk<7>::run_lite(c, o);
     else o << "BAD-OP";
   }
   else if(op == "scale")
